@@ -149,7 +149,15 @@ void nack_cb(coap_session_t *, const coap_pdu_t *sent, const coap_nack_reason_t 
   if (!sent) return;
   Bytes tok = cx::tok_of(sent);
   Xfer *x = by_token(tok);
-  if (!x) { g->res->violate("R5.foreign_token", tok.size() <= 2 ? "short_library_token_nack" : "other_token_nack", strfmt("client NACK handler saw token %s that the application never issued", hex(tok).c_str())); return; }
+  if (!x) {
+    // whose wire token is it? The give-up is attributed to that transfer (so that it is not also reported as unconcluded);
+    // what remains is that the application was handed a token it never issued.
+    std::string owner = "unknown_owner";
+    auto it = g->wire_token_owner.find(tok);
+    if (it != g->wire_token_owner.end()) if (Xfer *o = by_id(it->second)) { o->nacks++; owner = "state_token_of_a_running_transfer"; }
+    g->res->violate("R5.foreign_token", std::string(tok.size() <= 2 ? "short_library_token_nack" : "other_token_nack") + "," + owner + (reason == COAP_NACK_TOO_MANY_RETRIES ? ",give_up" : ",other_reason"), strfmt("client NACK handler saw token %s that the application never issued", hex(tok).c_str()));
+    return;
+  }
   x->nacks++;
 }
 
